@@ -1,1 +1,2 @@
-
+int l2func_3(void){ return 110; }
+void *addr_l2func_3(void){ return (void*)l2func_3; }
